@@ -306,7 +306,10 @@ deriving DecidableEq, Repr
 def cycleTake {α : Type} (xs : List α) (k : Nat) : List α := ((List.replicate k xs).flatten).take k
 
 /-- what the provider delivers with `Limit = k` when every pass over the (unchanged) file yields
-`(items, stop)`: full scan mode re-reads the file, preload mode scans once and cycles the loaded slice. -/
+`(items, stop)`: full scan mode re-reads the file, preload mode scans once and cycles the loaded slice.
+`k` counts the requests handed out: Go's `Limit = 0` means "no limit", the stream then never ends and `deliver … k` is
+its first `k` requests (`C07_limit_prefix`: deliveries under growing limits extend each other; the harness also runs the
+real provider with `Limit = 0` and takes `k` requests). -/
 def deliver {α : Type} (pass : List α × Stop) (k : Nat) (preload : Bool) : List α × Stop :=
   match pass.2 with
   | .eof => if pass.1.isEmpty then ([], .err .noammo) else (cycleTake pass.1 k, .eof)
